@@ -2204,6 +2204,22 @@ def clone_flush_program(rng, pid, cfg, cs):
     return {"id": pid, "cfg": cfg, "ops": ops, "origin": "io:clone-flush"}
 
 
+def patch_header_crash_program(rng, pid, cfg, cs):
+    """the body of a file is written, then the program seeks back and patches a header (the last write before the flush does not grow the
+    file), under a clock that stands still or moves: what was flushed survives every later crash point"""
+    ops = []
+    if rng.random() < 0.7:
+        ops.append({"op": "clock", "t": [2020, 6, 15, 12, 30, rng.choice([30, 31]), 0]})
+    ops += [{"op": "create_file", "at": "", "path": "doc.bin", "as": "d"}, {"op": "write_all", "h": "d", "pat": 7, "len": rng.choice([14, cs + 8, 3 * cs + 8])},
+            {"op": "seek", "h": "d", "from": "start", "off": rng.choice([0, 2])}, {"op": "write_all", "h": "d", "pat": 8, "len": rng.choice([1, 12])},
+            {"op": rng.choice(["flush", "close"]), "h": "d"}]
+    for j in range(rng.randrange(2, 6)):
+        ops += [{"op": "create_file", "at": "", "path": "n%d.tmp" % j, "as": "n%d" % j}, {"op": "write_all", "h": "n%d" % j, "pat": j, "len": rng.choice([3, cs])},
+                {"op": "close", "h": "n%d" % j}]
+    ops += [{"op": "create_dir", "at": "", "path": "later"}, {"op": "unmount"}]
+    return {"id": pid, "cfg": dict(cfg, wlog=True), "ops": ops, "crash": {"stride": 1}, "origin": "crash:patch-header"}
+
+
 def intr_write_programs(tag, cfg, cs):
     """one program per device call k of a multi-cluster write_all that starts on a cluster boundary: that call is interrupted once
     (EINTR-like); where the looping caller repeats the piece the write succeeds, and then nothing may be lost, shifted or written twice:
